@@ -116,7 +116,7 @@ func check(c Case) ev.Verdict {
 		return ev.Excluded(why)
 	}
 	if c.Opts.Indent != "" {
-		return ev.Excluded("indent not part of this unit")
+		return ev.Excluded("the case's own options carry no indent (the check adds one itself)")
 	}
 	ro := c.Opts.Ref()
 	canonical := doc.Text(c.Opts.Esc) == c.Doc && ref.OpsText(ops, c.Opts.Esc) == c.Patch
@@ -186,6 +186,20 @@ func check(c Case) ev.Verdict {
 		return v
 	}
 	isT, isAce, isM := classify(got.Err)
+	{
+		// the indenting entry points are the same function: same failure, same classes, no document
+		io := c.Opts
+		io.Indent = "\t"
+		gi := lib.Apply(c.Doc, c.Patch, io)
+		if gi.Panic != nil {
+			return ev.Verdict{Err: gi.Panic}
+		}
+		iT, iAce, iM := classify(gi.Err)
+		if gi.Err == nil || gi.Out != nil || iT != isT || iAce != isAce || iM != isM {
+			v.Err = fmt.Errorf("ApplyIndentWithOptions reports the failure differently from ApplyWithOptions:\n plain:    %v\n indented: %v / %s", got.Err, gi.Err, gi.Out)
+			return v
+		}
+	}
 	either := func(c ref.Cause) bool { return cause == c || (alt != ref.COK && alt == c) }
 	both := func(c ref.Cause) bool { return cause == c && (alt == ref.COK || alt == c) }
 	if isT && !either(ref.CTestUnequal) {
